@@ -1442,6 +1442,19 @@ namespace awkward {
     if (!iscontiguous()) {
       return contiguous().getitem_next(head, tail, advanced);
     }
+    if (ndim() > 1) {
+      bool notstrided = (dynamic_cast<SliceMissing64*>(head.get()) != nullptr  ||
+                         dynamic_cast<SliceJagged64*>(head.get()) != nullptr);
+      for (auto item : tail.items()) {
+        if (dynamic_cast<SliceMissing64*>(item.get()) != nullptr  ||
+            dynamic_cast<SliceJagged64*>(item.get()) != nullptr) {
+          notstrided = true;
+        }
+      }
+      if (notstrided) {
+        return toRegularArray().get()->getitem_next(head, tail, advanced);
+      }
+    }
     Index64 carry(shape_[0]);
     struct Error err = kernel::carry_arange<int64_t>(
       kernel::lib::cpu,   // DERIVE
@@ -3914,10 +3927,10 @@ namespace awkward {
         + FILENAME(__LINE__));
     }
     else {
-      throw std::runtime_error(
-        std::string("undefined operation: NumpyArray::getitem_next_jagged("
-                    "array) for ndim == ") + std::to_string(ndim())
-        + FILENAME(__LINE__));
+      return toRegularArray().get()->getitem_next_jagged(slicestarts,
+                                                         slicestops,
+                                                         slicecontent,
+                                                         tail);
     }
   }
 
@@ -3932,10 +3945,10 @@ namespace awkward {
         + FILENAME(__LINE__));
     }
     else {
-      throw std::runtime_error(
-        std::string("undefined operation: NumpyArray::getitem_next_jagged("
-                    "missing) for ndim == ") + std::to_string(ndim())
-        + FILENAME(__LINE__));
+      return toRegularArray().get()->getitem_next_jagged(slicestarts,
+                                                         slicestops,
+                                                         slicecontent,
+                                                         tail);
     }
   }
 
@@ -3950,10 +3963,10 @@ namespace awkward {
         + FILENAME(__LINE__));
     }
     else {
-      throw std::runtime_error(
-        std::string("undefined operation: NumpyArray::getitem_next_jagged("
-                    "jagged) for ndim == ") + std::to_string(ndim())
-        + FILENAME(__LINE__));
+      return toRegularArray().get()->getitem_next_jagged(slicestarts,
+                                                         slicestops,
+                                                         slicecontent,
+                                                         tail);
     }
   }
 
